@@ -228,6 +228,22 @@ class Body:
                     st.append(b)
         return seen
 
+    def ref_roots(self, locals_):
+        """The given locals plus every local they are a plain copy / move / (re)borrow / cast of (backwards through
+        assignments only, never through calls): `&mut top`, `&top` and a reborrow `&*r` of `r = &top` all lead to `top`."""
+        seen = set(locals_)
+        st = list(locals_)
+        while st:
+            d = st.pop()
+            for bb in self.bbs:
+                for s in bb["st"]:
+                    if s.get("k") == "A" and s["p"]["l"] == d and not s["p"].get("pr") and s["r"].get("k") in ("Use", "Ref", "RawPtr", "Cast"):
+                        for src in rvalue_reads(s["r"]):
+                            if src not in seen:
+                                seen.add(src)
+                                st.append(src)
+        return seen
+
     def call_result_local(self, bb):
         return self.bbs[bb]["t"]["d"]["l"]
 
@@ -292,4 +308,26 @@ def find_closure_aggs(body, closure_def):
         for s in bb["st"]:
             if s.get("k") == "A" and s["r"].get("k") == "Agg" and s["r"]["ak"] == f"Closure:{closure_def}":
                 out.append((i, s))
+    return out
+
+
+def result_wrappers(facts, rx, crates=None):
+    """First-party functions that are thin wrappers of a call matching `rx`: the call's arguments derive from the
+    function's own parameters and the function's result derives from the call's result (one level; e.g. a helper
+    `is_exhausted(it) = it.size_hint() == (0, Some(0))`). A test made through such a helper is the same test."""
+    out = set()
+    for crate, body in facts.all_mir():
+        if crates and crate not in crates:
+            continue
+        argc = body.get("argc")
+        if not argc:
+            continue
+        b = Body(body)
+        cs = b.find_calls(rx)
+        if not cs:
+            continue
+        params = b.derived_from(list(range(1, argc + 1)))
+        for c in cs:
+            if set(b.arg_locals(c)) & params and 0 in b.derived_from([b.call_result_local(c)]):
+                out.add(body["def"])
     return out
